@@ -158,6 +158,14 @@ def run(res):
         outd = w.read("mux.hevc") or b""
         got = c05.split_with_sc(outd)
         gp = strip([x[1] for x in got])
+        if ec == "panic":
+            # the documented `.unwrap()` on an EL RPU that cannot be converted under -m (outside the property's
+            # quantifier): the model must predict it, nothing else is compared on a run that did not finish
+            mp_ = C.model().run(["mux %s %s %s" % (opt_string(o), ";".join(x.model() for x in bl), ";".join(x.model() for x in el))])[0]
+            nmodel += 1
+            if not mp_.startswith("panic"):
+                res.violation("mux panics (-m %s) where the model predicts %s" % (o["mode"], mp_[:30]), rp)
+            continue
         if kind == "el_shorter":
             # unspecified: base-layer conservation only
             keep = strip([n.data for n in bl if n.type not in (62, 63) and not (n.type == 35 and not o["noaud"])])
